@@ -328,7 +328,7 @@ int vf_aint_assign(struct vf_atomic_int *a, int v) { vf_aint_store(a, v, VF_MO_S
 void vf_payload__ctor(struct vf_payload *self)
 {
   VF_HOOK_USER();
-  if (vf_nondet_bool()) { vf_exc = 1; return; }
+  if (vf_nondet_bool()) { vf_exc = 1; vf_user_threw = 1; return; }
   self->v = 0; self->life = VF_LIVE; self->guard = 0; self->torn = 0;
 }
 void vf_payload__ctor_copy(struct vf_payload *self, struct vf_payload *o)
@@ -336,7 +336,7 @@ void vf_payload__ctor_copy(struct vf_payload *self, struct vf_payload *o)
   __CPROVER_assert(o->life == VF_LIVE, "[life] copy from an object that is not alive");
   VF_ACCESS(o, 0);
   VF_HOOK_USER();
-  if (vf_nondet_bool()) { vf_exc = 1; return; }
+  if (vf_nondet_bool()) { vf_exc = 1; vf_user_threw = 1; return; }
   self->v = o->v; self->life = VF_LIVE; self->guard = 0; self->torn = o->torn;
 }
 void vf_payload__ctor_move(struct vf_payload *self, struct vf_payload *o)
@@ -344,7 +344,7 @@ void vf_payload__ctor_move(struct vf_payload *self, struct vf_payload *o)
   __CPROVER_assert(o->life == VF_LIVE, "[life] move from an object that is not alive");
   VF_ACCESS(o, 1);
   VF_HOOK_USER();
-  if (vf_nondet_bool()) { vf_exc = 1; return; }
+  if (vf_nondet_bool()) { vf_exc = 1; vf_user_threw = 1; return; }
   self->v = o->v; self->life = VF_LIVE; self->guard = 0; self->torn = o->torn;
 }
 struct vf_payload *vf_payload__op_assign__1(struct vf_payload *self, struct vf_payload *o)
@@ -353,7 +353,7 @@ struct vf_payload *vf_payload__op_assign__1(struct vf_payload *self, struct vf_p
   VF_ACCESS(self, 1);
   VF_ACCESS(o, 0);
   VF_HOOK_USER();
-  if (vf_nondet_bool()) { vf_exc = 1; vf_assign_threw = 1; self->torn = vf_nondet_bool() ? 1 : self->torn; return self; }
+  if (vf_nondet_bool()) { vf_exc = 1; vf_user_threw = 1; vf_assign_threw = 1; self->torn = vf_nondet_bool() ? 1 : self->torn; return self; }
   self->v = o->v; self->torn = o->torn;
   return self;
 }
@@ -363,7 +363,7 @@ _Bool vf_payload__op_eq__1(struct vf_payload *self, struct vf_payload *o)
   VF_ACCESS(self, 0);
   VF_ACCESS(o, 0);
   VF_HOOK_USER();
-  if (vf_nondet_bool()) { vf_exc = 1; return 0; }
+  if (vf_nondet_bool()) { vf_exc = 1; vf_user_threw = 1; return 0; }
   return self->v == o->v;
 }
 void vf_payload__dtor(struct vf_payload *self)
@@ -378,7 +378,7 @@ void vf_payload_swap(struct vf_payload *a, struct vf_payload *b)
   VF_ACCESS(a, 1);
   VF_ACCESS(b, 1);
   VF_HOOK_USER();
-  if (vf_nondet_bool()) { vf_exc = 1; return; }
+  if (vf_nondet_bool()) { vf_exc = 1; vf_user_threw = 1; return; }
   int t = a->v; a->v = b->v; b->v = t;
   int tt = a->torn; a->torn = b->torn; b->torn = tt;
 }
@@ -390,10 +390,10 @@ int vf_user_effect(struct vf_payload *p, int write)
   VF_ACCESS(p, write);
   VF_HOOK_USER();
   if (write) {
-    if (vf_nondet_bool()) { vf_exc = 1; p->v = vf_nondet_int(); p->torn = 1; return 0; }
+    if (vf_nondet_bool()) { vf_exc = 1; vf_user_threw = 1; p->v = vf_nondet_int(); p->torn = 1; return 0; }
     p->v = VF_USER_WRITE_VALUE(p);
   } else {
-    if (vf_nondet_bool()) { vf_exc = 1; return 0; }
+    if (vf_nondet_bool()) { vf_exc = 1; vf_user_threw = 1; return 0; }
   }
   return vf_nondet_int();
 }
